@@ -28,7 +28,7 @@ struct C11 : Property
 	std::vector<std::string> probes() const override
 	{
 		return {"set.grow_from_inline_to_heap", "set.grow_heap_to_bigger_heap", "set.shrink_within_heap", "set.shrink_within_inline", "set.to_zero_length_from_heap", "set.same_length",
-		        "set.embedded_nul", "set.non_utf8", "set.refused_length", "set.alloc_failed_contents_kept", "roundtrip.with_nul", "copy.of_heap_string", "strlen_variant_truncates", "serialize.colour_flag", "set.from_own_serialization", "set.from_slice_of_own_contents", "set.truncate_through_own_pointer", "set.strlen_setter_with_own_pointer"};
+		        "set.embedded_nul", "set.non_utf8", "set.refused_length", "set.alloc_failed_contents_kept", "roundtrip.with_nul", "copy.of_heap_string", "copy.mutated_original_checked", "strlen_variant_truncates", "serialize.colour_flag", "set.from_own_serialization", "set.from_slice_of_own_contents", "set.truncate_through_own_pointer", "set.strlen_setter_with_own_pointer"};
 	}
 
 	static std::string gen_bytes(Rng &r, size_t prev)
@@ -423,6 +423,21 @@ struct C11 : Property
 					ctx.fail("C11:equal-mismatch", "op %zu: a deep copy does not compare equal to its original", oi);
 				if (n.heap_guess)
 					ctx.probe("copy.of_heap_string");
+				// the copy is a string node of its own: bytes set on it afterwards are read back from it, and the original still
+				// reads the last bytes set on the ORIGINAL (both lengths cross the inline threshold in one direction or the other)
+				if (c)
+				{
+					std::string other = n.bytes.size() > 20 ? std::string("c\0p", 3) : std::string(40, 'c') + std::string("\0y", 2);
+					if (LIB(json_object_set_string_len(c, other.data(), (int)other.size())) == 1)
+					{
+						if (node_bytes(c) != other)
+							ctx.fail("C11:content-mismatch", "op %zu: a deep copy does not read back the bytes set on it", oi);
+						if (node_bytes(n.o) != n.bytes || json_object_get_string(n.o)[n.bytes.size()] != '\0')
+							ctx.fail("C11:copy-not-independent", "op %zu: setting the deep copy changed the original: reads %s, last set %s", oi, hexenc(node_bytes(n.o)).substr(0, 100).c_str(),
+							         hexenc(n.bytes).substr(0, 100).c_str());
+						ctx.probe("copy.mutated_original_checked");
+					}
+				}
 				LIBV(json_object_put(c));
 			}
 			else if (op.kind == "roundtrip")
